@@ -50,7 +50,8 @@ func H_Conc() {
 	w.Order = [kit.NS]int{0, 1, 2, 3}
 	// registration 0 (disposable S0) takes registrations 1 and 2 as parameters, so
 	// that a user callback runs between the resolution of its two arguments
-	w.Regs[0] = kit.Reg{Present: true, Life: l0, Form: kit.IdPlain, Variant: 2}
+	v0 := []int{2, 22}[vrt.Pick("var0", 0, 1)] // S0(S1, S2) or S0(Scope, S1)
+	w.Regs[0] = kit.Reg{Present: true, Life: l0, Form: kit.IdPlain, Variant: v0}
 	w.Regs[1] = kit.Reg{Present: true, Life: l1, Form: kit.IdPlain, Variant: 0}
 	w.Regs[2] = kit.Reg{Present: true, Life: l2, Form: kit.IdPlain, Variant: 0}
 	vrt.Assume(buildable(w))
@@ -225,18 +226,53 @@ func H_Conc() {
 			if in == nil {
 				continue
 			}
-			vrt.Assert(len(in.Args) == len(kit.Deps[in.Slot][w.Regs[in.Slot].Variant]), "C09.wrong_wiring", "instance of slot", in.Slot, "received", len(in.Args), "arguments")
+			var specs []kit.DepSpec
+			for _, d := range kit.Deps[in.Slot][w.Regs[in.Slot].Variant] {
+				if d.Target >= -1 {
+					specs = append(specs, d)
+				}
+			}
+			vrt.Assert(len(in.Args) == len(specs), "C09.wrong_wiring", "instance of slot", in.Slot, "received", len(in.Args), "arguments")
+			if in.HasScope && w.Regs[in.Slot].Life != kit.LSingleton {
+				// C18 under interleaving: the injected Scope is the scope the request was issued on
+				if s, ok := sc.(godi.Scope); ok {
+					vrt.Assert(in.Scope == s, "C18.injected_scope", "instance of slot", in.Slot, "constructed in one scope received another scope")
+					vrt.Assert(in.Scope == s, "C09.wrong_wiring", "instance of slot", in.Slot, "constructed in one scope received another scope")
+				}
+			}
 			for j, a := range in.Args {
-				if a == nil {
+				if a == nil || j >= len(specs) {
 					vrt.Assert(false, "C09.wrong_wiring", "nil argument under concurrency")
 					continue
 				}
-				want := kit.Deps[in.Slot][w.Regs[in.Slot].Variant][j].Target
+				want := specs[j].Target
 				vrt.Assert(a.Slot == want, "C09.wrong_wiring", "argument", j, "of slot", in.Slot, "is an instance of slot", a.Slot, "instead of", want)
 				if w.Regs[a.Slot].Life == kit.LScoped {
 					cur, err := sc.Get(kit.TypeS[a.Slot])
 					if err == nil {
 						vrt.Assert(kit.InfoOf(cur) == a || w.Regs[in.Slot].Life != kit.LScoped && false, "C09.wrong_wiring", "instance of slot", in.Slot, "resolved in one scope holds the scoped instance of another scope (slot", a.Slot, ")")
+					}
+				}
+			}
+		}
+	}
+	// C03: two overlapping resolutions of one transient are two instances
+	for _, ra := range res[0] {
+		for _, rb := range res[1] {
+			if ra.err != nil || rb.err != nil || ra.val == nil || rb.val == nil {
+				continue
+			}
+			ia, ib := kit.InfoOf(ra.val), kit.InfoOf(rb.val)
+			if ia != nil && ib != nil && w.Regs[ia.Slot].Life == kit.LTransient && ia.Slot == ib.Slot {
+				vrt.Assert(ia != ib, "C03.concurrent_shared", "two concurrent resolutions of transient registration", ia.Slot, "received one instance")
+			}
+			// ... and so are the transient arguments they received
+			if ia != nil && ib != nil && ia != ib {
+				for _, x := range ia.Args {
+					for _, y := range ib.Args {
+						if x != nil && x == y && w.Regs[x.Slot].Life == kit.LTransient {
+							vrt.Assert(false, "C03.concurrent_shared", "two constructions received the same transient instance of slot", x.Slot)
+						}
 					}
 				}
 			}
